@@ -66,6 +66,24 @@ def scenarios():
         return dict(pt=pt, solver=Solver(pt), motor=m, last=g2, load=load,
                     schedule=[(TimeInterval(2, "ms"), TimeInterval(40, "ms"), {}), (TimeInterval(0.005, "sec"), TimeInterval(0.05, "sec"), {})])
 
+    def idler_train():
+        # an idler gear: slave of the first mating and master of the second (its mating role is the one declared last)
+        m = motor()
+        p = SpurGear("pinion", 12, InertiaMoment(10, "gcm^2"), Length(1, "mm"), Length(5, "mm"), Stress(200, "GPa"))
+        idl = SpurGear("idler", 30, InertiaMoment(40, "gcm^2"), Length(1, "mm"), Length(5, "mm"), Stress(200, "GPa"))
+        out = SpurGear("output", 45, InertiaMoment(90, "gcm^2"), Length(1, "mm"), Length(5, "mm"), Stress(200, "GPa"))
+        add_fixed_joint(m, p)
+        add_gear_mating(p, idl, 0.9)
+        add_gear_mating(idl, out, 0.8)
+        load = Recorder(lambda time, angular_position, angular_speed: Torque(3 + 0.01 * angular_speed.to("rad/s").value
+                                                                                + 0.5 * math.cos(angular_position.to("rad").value), "mNm"))
+        out.external_torque = load
+        out.angular_position = AngularPosition(0, "rad")
+        out.angular_speed = AngularSpeed(5, "rad/s")
+        pt = Powertrain(m)
+        return dict(pt=pt, solver=Solver(pt), motor=m, last=out, load=load,
+                    schedule=[(TimeInterval(5, "ms"), TimeInterval(200, "ms"), {})])
+
     def helical_train():
         m = motor(False)
         h1 = HelicalGear("h1", 15, InertiaMoment(10, "gcm^2"), Angle(20, "deg"), Length(1, "mm"), Length(5, "mm"), Stress(200, "GPa"))
@@ -126,6 +144,7 @@ def scenarios():
     return [
         ("spur-train(rpm start, mixed inertia units, continuation in sec after ms)", spur_train),
         ("helical+spur-train(no current data, position-dependent load, continuation in ms after sec)", helical_train),
+        ("spur train with an idler gear (slave of one mating, master of the next)", idler_train),
         ("self-locking worm, load jump locks mid-run", lambda: worm_train(
             lambda time, angular_position, angular_speed: T(10 + 2 * angular_speed.to("rad/s").value if time.to("sec").value < 0.2
                                                             else 5000 + 30 * angular_speed.to("rad/s").value, "mNm"))),
